@@ -83,6 +83,16 @@ add("C04/cue/library-export-stack-overflow",
     r"route=input:cue outcome=crash frame=recursion:lib:cuelang\.org/go/internal/core/export\.\(\*exporter\)\.\w+ msg=fatal error: stack overflow",
     "./check C04 --replay corpus:corpus/cue-self-referential-field",
     "candidate: reject values with v.Validate() errors (structural / reference cycles) in simplecue.GenerateAST before walking; third-party recursion cannot be recovered")
+add("C04/yaml/empty-enum",
+    "enum without values written in YAML (`add_object` / `retype_*` / `add_fields` with `as: {kind: enum, enum: {values: []}}` or `enum: {}`; the OpenAPI front-end rejects `enum: []` since fix fd9167a, JSON Schema always did): the enum formatters of the Go, Java, PHP, Python jennies and the default-value code of PHP, Python, TypeScript index Values[0]. This is the YAML half of the former C04/enum/empty-enum",
+    r"route=config .*frame=internal/jennies/\w+\.\S*([eE]num\w*|defaultValueFor\w+)\S* msg=runtime error: index out of range",
+    "./check C04 --replay corpus:corpus-config/enum-empty-values",
+    "small safe fix: reject an enum without values when decoding `as:` types (error), as both front-ends do")
+add("C04/yaml/empty-union-default-value",
+    "union without branches written in YAML (`add_fields` / `add_object` / `retype_*` with `{kind: disjunction, disjunction: {branches: []}}`; the front-ends reject `oneOf: []` since fix fd9167a) on a REQUIRED field: the Python, TypeScript and PHP raw-type jennies compute a default value and index `Branches[0]` in defaultValueForType. Exposed once DisjunctionInferMapping stopped panicking first (fix 146d1ec); Go and Java return the error `discriminator not set`. The languages of one run are processed concurrently, so with several languages the run ends either with that error or with this panic",
+    r"route=config .*frame=internal/jennies/(python|typescript|php)\.\S*defaultValueForType msg=runtime error: index out of range",
+    "./check C04 --replay corpus:corpus-config/union-empty-typescript",
+    "small safe fix: `len(Branches) == 0` guard in the three defaultValueForType (or reject empty unions when decoding `as:` types)")
 add("C04/python/intersection-not-implemented",
     "OpenAPI / JSON Schema `allOf` with the Python output: formatType panics explicitly `formatting intersection type is not implemented for python` (the repo's own testdata/openapi/intersections and external_refs trigger it)",
     r"frame=internal/jennies/python\.\(\*typeFormatter\)\.formatType msg=formatting intersection type is not implemented",
@@ -126,8 +136,11 @@ add("C04/yaml/implements-variant-not-string",
     "`implements_variant` hint that is not a string (hint_object with a number / null; `hints: {implements_variant: ~}` in an `as:` type): Type.ImplementedVariant / IsDataqueryVariant assert .(string)",
     r"frame=internal/ast\.Type\.(ImplementedVariant|IsDataqueryVariant)\S* msg=interface conversion",
     "harness c04-run streams=config, e.g. seed 1 config/3437 — Lean witness C04.wVariantHint")
+# fixed later (aceba4d 30da046 375123d 637545e 423e7f3 182b25c fd9167a 146d1ec): the ten ids in FIXED below are filtered out
 # fixed in /repo and therefore removed here: openapi/enum-without-type 70c59a6, openapi/array-without-items 4e6f2a6, openapi/unresolved-ref-nil-value ca4fdd6,
 # jsonschema/tuple-items f0d68ac, config/null-list-element 15208a9, config/null-document 4823a7e, yaml/hint-object-nil-map d683cb9, fromast/dangling-alias eed3e31
+FIXED = ['C04/enum/member-value-not-string', 'C04/enum/empty-member-name', 'C04/union/null-null', 'C04/discriminator/branch-not-struct', 'C04/discriminator/non-string-constant', 'C04/yaml/constant-to-enum-non-string', 'C04/veneers/disjunction-as-options-index', 'C04/enum/member-value-uncomparable', 'C04/enum/empty-enum', 'C04/union/empty']
+F = [e for e in F if e["id"] not in FIXED]
 doc = {"comment": "PROPOSED known-findings entries of property C04 (to be merged into /verif/known_findings.json by the coordinator). checks/c04.py reads only /verif/known_findings.json.", "findings": F}
 for p in ("/verif/.work/proposed_findings_C04.json",):
     json.dump(doc, open(p, "w"), indent=1)
